@@ -1,7 +1,11 @@
-(* C19 correspondence: run the model on an op list and compare with what the Go
-   implementation printed. *)
+(* C19 correspondence: run the models on an op list and compare with what the Go
+   implementation printed: the value-level world model (Model.run) on flags /
+   values / tree checksums / key lists, and the pointer-level world model
+   (ModelW.prun) additionally on the checksum of the whole heap after every step
+   (node identities, Left/Right/Parent pointers, Deleted flags, unlinked objects,
+   the node pointer every iterator holds). *)
 From Coq Require Import ZArith List Bool.
-From ADV Require Import Base.Corr C19.Model.
+From ADV Require Import Base.Corr C19.Model C19.ModelW.
 Import ListNotations.
 Open Scope Z_scope.
 
@@ -15,3 +19,15 @@ Definition check (c : case) : bool := list_eqb out_eqb (run init (fst c)) (snd c
 Definition mism (cs : list case) : list nat := mismatches check cs.
 (* first op index at which the case diverges *)
 Definition diverge (c : case) : option nat := first_diff out_eqb 0 (run init (fst c)) (snd c).
+
+(* ---- pointer level: (ops, outputs, heap checksum after each step) ------------ *)
+Definition pcase := (list op * list out * list Z)%type.
+Definition pout_eqb (a b : pout) : bool := out_eqb (fst a) (fst b) && (snd a =? snd b).
+Definition pcheck (c : pcase) : bool :=
+  let '(ops, outs, phs) := c in
+  Nat.eqb (length outs) (length phs) &&
+  list_eqb out_eqb (run init ops) outs &&
+  list_eqb pout_eqb (prun pinit ops) (combine outs phs).
+Definition pmism (cs : list pcase) : list nat := mismatches pcheck cs.
+Definition pdiverge (c : pcase) : option nat :=
+  let '(ops, outs, phs) := c in first_diff pout_eqb 0 (prun pinit ops) (combine outs phs).
